@@ -119,14 +119,60 @@ def quiet():
     return contextlib.redirect_stdout(io.StringIO())
 
 
+class OpenFailed(Exception):
+    """Opening a listing did not return a reader: .kind is 'nontermination' or 'raises-<Type>'."""
+
+    def __init__(self, kind, message):
+        Exception.__init__(self, message)
+        self.kind = kind
+
+
+class _IoShim(object):
+    """Stands in for the name 'io' inside the t2listing module while a listing is being opened, so that the
+    reader's file is a CountingFile from its first read (the constructor makes several passes over the file
+    and ends with first(): a loop there must be cut by the budget too, not by a clock)."""
+
+    def __init__(self, real, nlines, nsets):
+        self._real = real
+        self._nlines, self._nsets = nlines, nsets
+        self.made = None
+
+    def open(self, *a, **kw):
+        cf = CountingFile(self._real.open(*a, **kw), self._nlines, self._nsets)
+        cf.arm()
+        self.made = cf
+        return cf
+
+    def __getattr__(self, name):
+        return getattr(self._real, name)
+
+
 def open_listing(path, skip_tables=None):
-    """Genuinely fresh open (the library parses the file), counting file installed afterwards.
-    The open itself is protected by a wall-clock backstop only (a hang there is a unit timeout)."""
+    """Genuinely fresh open (the library parses the file) with the counting file in place from the start.
+    Raises OpenFailed when the constructor exceeds the readline budget or raises."""
     import t2listing
     sc = scan_of(path)
-    with quiet():
-        lst = t2listing.t2listing(path, skip_tables=skip_tables)
-    lst._file = CountingFile(lst._file, sc.nlines, len(sc.sets))
+    shim = _IoShim(io, sc.nlines, len(sc.sets))
+    real_io = t2listing.io
+    t2listing.io = shim
+    try:
+        with quiet(), core.timelimit(600):
+            lst = t2listing.t2listing(path, skip_tables=skip_tables)
+    except BudgetExceeded as e:
+        if shim.made is not None:
+            shim.made.close()
+        raise OpenFailed('nontermination', 'opening %s does not terminate: %s' % (path, e))
+    except (core.CaseTimeout, core.HarnessError):
+        raise
+    except Exception as e:
+        if shim.made is not None:
+            shim.made.close()
+        raise OpenFailed('raises-%s' % type(e).__name__, 'opening %s raised %r' % (path, e))
+    finally:
+        t2listing.io = real_io
+    if not isinstance(lst._file, CountingFile):
+        lst._file = CountingFile(lst._file, sc.nlines, len(sc.sets))
+    lst._file.disarm()
     return lst
 
 
